@@ -22,6 +22,10 @@ type C07Param struct {
 	Name     string `json:"name"`
 	Required bool   `json:"required"`
 	State    string `json:"state"` // valid | invalid | absent  (how the request carries it)
+	// "" an integer; "dflt" an integer with default 10; "obj" (query only) an exploded form object
+	// {color: string (required), size: integer}, carried as color=red (valid) or size=1 (invalid);
+	// "objap" an exploded form object with additionalProperties: boolean, carried as flag=true / flag=maybe
+	Kind string `json:"kind,omitempty"`
 }
 
 type C07Case struct {
@@ -39,6 +43,7 @@ type C07Case struct {
 	Multi       bool         `json:"multi"`
 	ExclBody    bool         `json:"excl_body"`
 	ExclQuery   bool         `json:"excl_query"`
+	Defaults    bool         `json:"defaults,omitempty"` // default-setting on
 }
 
 type C07Obs struct {
@@ -63,6 +68,18 @@ func c07Requirements(rs [][]string) openapi3.SecurityRequirements {
 }
 
 func c07MkParam(p C07Param) *openapi3.ParameterRef {
+	switch p.Kind {
+	case "dflt":
+		return &openapi3.ParameterRef{Value: &openapi3.Parameter{Name: p.Name, In: p.In, Required: p.Required || p.In == "path",
+			Schema: openapi3.NewIntegerSchema().WithDefault(10).NewRef()}}
+	case "objap":
+		sch := openapi3.NewObjectSchema().WithAdditionalProperties(openapi3.NewBoolSchema())
+		return &openapi3.ParameterRef{Value: &openapi3.Parameter{Name: p.Name, In: p.In, Required: p.Required, Style: "form", Explode: openapi3.BoolPtr(true), Schema: sch.NewRef()}}
+	case "obj":
+		sch := openapi3.NewObjectSchema().WithProperty("color", openapi3.NewStringSchema()).WithProperty("size", openapi3.NewIntegerSchema())
+		sch.Required = []string{"color"}
+		return &openapi3.ParameterRef{Value: &openapi3.Parameter{Name: p.Name, In: p.In, Required: p.Required, Style: "form", Explode: openapi3.BoolPtr(true), Schema: sch.NewRef()}}
+	}
 	return &openapi3.ParameterRef{Value: &openapi3.Parameter{Name: p.Name, In: p.In, Required: p.Required || p.In == "path",
 		Schema: openapi3.NewIntegerSchema().NewRef()}}
 }
@@ -135,6 +152,22 @@ func c07Build(c *C07Case) c07Built {
 			}
 			switch p.In {
 			case "query":
+				if p.Kind == "objap" {
+					if p.State == "invalid" {
+						q.Set("flag", "maybe")
+					} else {
+						q.Set("flag", "true")
+					}
+					break
+				}
+				if p.Kind == "obj" {
+					if p.State == "invalid" {
+						q.Set("size", "1")
+					} else {
+						q.Set("color", "red")
+					}
+					break
+				}
 				q.Set(p.Name, val)
 			case "header":
 				req.Header.Set(p.Name, val)
@@ -156,7 +189,7 @@ func runC07(c *C07Case) C07Obs {
 	ctx := context.Background()
 	var calls []string
 	mkOpts := func(record bool) *openapi3filter.Options {
-		opts := &openapi3filter.Options{MultiError: c.Multi, ExcludeRequestBody: c.ExclBody, ExcludeRequestQueryParams: c.ExclQuery, SkipSettingDefaults: true}
+		opts := &openapi3filter.Options{MultiError: c.Multi, ExcludeRequestBody: c.ExclBody, ExcludeRequestQueryParams: c.ExclQuery, SkipSettingDefaults: !c.Defaults}
 		if c.HasAuth {
 			opts.AuthenticationFunc = func(_ context.Context, ai *openapi3filter.AuthenticationInput) error {
 				if record {
@@ -364,6 +397,35 @@ func c07Random(r *Rng) C07Case {
 	if r.Chance(20) {
 		c.BodyVia = "multireader"
 	}
+	if r.Chance(25) {
+		// default-setting on: an absent parameter with a default (its default is written into the
+		// request) next to an optional exploded object parameter, which shares the query with it
+		c.Defaults = true
+		d := C07Param{In: Pick(r, []string{"query", "query", "header", "cookie"}), Name: "limit", State: Pick(r, []string{"absent", "absent", "valid"}), Kind: "dflt"}
+		o := C07Param{In: "query", Name: "filter", State: Pick(r, []string{"absent", "absent", "valid", "invalid"}), Kind: "obj", Required: r.Chance(20)}
+		if r.Bool() {
+			c.PathParams = append([]C07Param{d}, c.PathParams...)
+		} else {
+			c.OpParams = append([]C07Param{d}, c.OpParams...)
+		}
+		if r.Chance(40) {
+			// an object that takes every key of the query as a member (additionalProperties: boolean):
+			// it is absent only when the query is empty, so no other parameter is carried in the query
+			o.Kind, o.Required = "objap", false
+			for _, l := range []*[]C07Param{&c.OpParams, &c.PathParams} {
+				for i := range *l {
+					if (*l)[i].In == "query" {
+						(*l)[i].State = "absent"
+					}
+				}
+			}
+		}
+		if r.Bool() {
+			c.OpParams = append(c.OpParams, o)
+		} else {
+			c.PathParams = append(c.PathParams, o)
+		}
+	}
 	return c
 }
 
@@ -458,6 +520,7 @@ func init() {
 		}
 		if replay == "" {
 			c07Loaded(meta)
+			validationHandlerOracles(meta)
 		}
 		meta.NCases = len(cases)
 		meta.Files = writeCases(outDir, "From KV Require Import Model.Base Model.Request Exec.C07Exec.", "c07case", "judge", terms, meta.Shard)
